@@ -414,7 +414,9 @@ int filter_fix_linedirs (struct filter *chain)
 		}
 
 		fputs (buf, stdout);
-		lineno++;
+		/* a line longer than buf arrives in several pieces: count it once */
+		if (strchr (buf, '\n') != NULL)
+			lineno++;
 	}
 	fflush (stdout);
 	if (ferror (stdout))
